@@ -128,6 +128,7 @@ func c11LongF(c *hx.Ctx, r *hx.RNG, intDigits int) {
 func c11Case(c *hx.Ctx, r *hx.RNG, idx int64) {
 	if idx%4000000 == 23 {
 		c11Long(c, r)
+		releaseHuge()
 		return
 	}
 	switch m := idx % 1000000; {
